@@ -16,6 +16,9 @@ def run(ctx):
         extra.append({"id": "l1s%d" % i, "declined": [],
                       "revs": [{"t": "attach"}, RF("LOGON", 0), RS("APP", "11=q%d|1=%s" % (i, v)), RF("TR", 0, trid="PR\xdcF-%d" % i),
                                RS("APP", "11=r%d" % i), RF("RR", 0, bm="abs", bv=1, em="abs", ev=0), RS("APP", "11=s%d|1=%s" % (i, v))]})
+    # "stored" means stored durably: the same histories over a journal file whose state is read through a second connection
+    # after every step (rows and counters that were written but not committed are not there)
+    extra += [dict(sp, id=sp["id"] + ".file", filej=True) for sp in extra]
     out.extra["journal_x_request_traces"] = len(extra)
     sessrun.run_property(ctx, out, "C05", extra_specs=extra)
     return out
